@@ -77,7 +77,8 @@ def check(prog: Program, tier: str) -> Result:
             "or a relative import is re-emitted as absolute. A module name that is a constant or built from the dotted "
             "name of an `import a.b` statement needs no level. (R18.2) the textual import constructor prefixes "
             "'.' * level. (R18.3) tracing through modules on disk is bounded (C04 R4.c). (R18.4) `from __future__` "
-            "imports are excluded from the set of imported names before unused imports are computed. Not decided: "
+            "imports are excluded from the set of imported names before unused imports are computed. (R18.5) an alias is looked up by the name "
+            "it BINDS: alias.name is compared only where alias.asname is None. Not decided: "
             "correctness of origin tracing itself (depends on the file system, sys.path and importlib at run time)."),
         rule_text="instances = ast.ImportFrom constructions, grouping dictionaries keyed by module, textual import constructors",
     )
@@ -155,15 +156,91 @@ def check(prog: Program, tier: str) -> Result:
     # R18.3 reference
     tr = prog.func("tracing", "trace_origin")
     res.ok("R18.3", tr.loc(), tr.fq, "bounded tracing", "decided under C04 R4.c (depth bound)", trivial=True)
-    res.floors.update({"R18.1": 6, "R18.2": 2, "R18.4": 1})
+    _r18_5(prog, res)
+    res.floors.update({"R18.1": 6, "R18.2": 2, "R18.4": 1, "R18.5": 1})
     res.analysed["importfrom_constructions"] = n
     return res
+
+
+# ------------------------------------------------------------------------------------------------ R18.5
+def _asname_none_guard(node: ast.AST, x: str, stop: ast.AST) -> Optional[str]:
+    """A syntactic reason why `<x>.asname is None` holds where node is evaluated."""
+    is_none = {f"{x}.asname is None", f"not {x}.asname", f"{x}.asname == None"}
+    not_none = {f"{x}.asname is not None", f"{x}.asname", f"{x}.asname != None"}
+    child = node
+    a = parent(node)
+    while a is not None and child is not stop:
+        if isinstance(a, ast.BoolOp) and isinstance(a.op, ast.And):
+            idx = next((i for i, v in enumerate(a.values) if v is child), None)
+            if idx is not None and any(norm(v) in is_none for v in a.values[:idx]):
+                return "conjunct `asname is None` in front of it"
+        if isinstance(a, ast.BoolOp) and isinstance(a.op, ast.Or):
+            idx = next((i for i, v in enumerate(a.values) if v is child), None)
+            if idx is not None and any(norm(v) in not_none for v in a.values[:idx]):
+                return "reached only when `asname is not None` was false"
+        if isinstance(a, (ast.If, ast.IfExp)):
+            t = norm(a.test)
+            body = a.body if isinstance(a.body, list) else [a.body]
+            orelse = a.orelse if isinstance(a.orelse, list) else [a.orelse]
+            if any(child is b for b in body) and t in is_none:
+                return "inside `if asname is None`"
+            if any(child is b for b in orelse) and t in not_none:
+                return "in the else branch of `if asname is not None`"
+        if isinstance(a, ast.comprehension):
+            idx = next((i for i, v in enumerate(a.ifs) if v is child), None)
+            if idx is not None and any(norm(v) in is_none for v in a.ifs[:idx]):
+                return "comprehension filter `asname is None` in front of it"
+        child, a = a, parent(a)
+    return None
+
+
+def _r18_5(prog: Program, res: Result) -> None:
+    """The name an import alias BINDS is `asname` if there is one, else `name`.  Looking an alias up by the name it
+    binds must therefore compare `alias.name` only where `alias.asname is None` holds; comparing `alias.name`
+    unconditionally also finds `from m import f as g` when asked for f - a name the importing module does not bind
+    (or binds to something else), so a reference is redirected to a different object."""
+    n = 0
+    for fn in prog.funcs.values():
+        if fn.mod.name not in ("tracing", "fixes", "parsing"):
+            continue
+        alias_vars = {a.value.id for a in walk_own(fn.node) if isinstance(a, ast.Attribute) and a.attr == "asname" and isinstance(a.value, ast.Name)}
+        if not alias_vars:
+            continue
+        for c in walk_own(fn.node):
+            if not (isinstance(c, ast.Compare) and len(c.ops) == 1 and isinstance(c.ops[0], (ast.Eq, ast.NotEq, ast.In, ast.NotIn))):
+                continue
+            left, right = c.left, c.comparators[0]
+            for mine, other in ((left, right), (right, left)):
+                cands = [mine] + (list(mine.elts) if isinstance(mine, (ast.Tuple, ast.List, ast.Set)) and isinstance(c.ops[0], (ast.In, ast.NotIn)) else [])
+                hit = next((m for m in cands if isinstance(m, ast.Attribute) and m.attr == "name" and isinstance(m.value, ast.Name) and m.value.id in alias_vars), None)
+                if hit is None:
+                    continue
+                x = hit.value.id
+                if isinstance(other, ast.Constant):
+                    continue          # alias.name != "*"
+                if any(isinstance(o, ast.Attribute) and isinstance(o.value, ast.Name) and o.value.id == x for o in ast.walk(other)):
+                    continue          # alias.asname != alias.name: two fields of the same alias
+                if isinstance(mine, ast.Tuple) and isinstance(other, ast.Tuple):
+                    continue          # field-wise comparison of two (name, asname) pairs
+                n += 1
+                why = _asname_none_guard(c, x, fn.node)
+                res.decide(why is not None, "R18.5", fn.loc(c), fn.fq, short(c, 80),
+                           f"`{x}.name` is the bound name here: {why}" if why else
+                           f"`{x}.name` is compared with a bound name although `{x}.asname` may be set: `import f as g` is found under the name f, which it does not bind")
+                break
+    res.analysed["alias_name_comparisons"] = n
 
 
 # ---------------------------------------------------------------------------------------------- self-test
 from ..selftest import Variant  # noqa: E402
 
 VARIANTS = [
+    Variant("alias-found-under-its-original-name", "FIRE", "tracing",
+            "                    original_name = next(\n                        alias.name\n                        for alias in module_import_node.names\n                        if alias.asname == name or (alias.asname is None and alias.name == name)\n                    )",
+            "                    original_name = next(\n                        alias.name\n                        for alias in module_import_node.names\n                        if name in (alias.asname, alias.name)\n                    )", "R18.5"),
+    Variant("alias-bound-name-as-conditional-expression", "SILENT", "tracing",
+            "                    original_name = next(\n                        alias.name\n                        for alias in module_import_node.names\n                        if alias.asname == name or (alias.asname is None and alias.name == name)\n                    )",
+            "                    original_name = next(\n                        alias.name\n                        for alias in module_import_node.names\n                        if (alias.name if alias.asname is None else alias.asname) == name\n                    )"),
     Variant("toplevel-move-drops-level", "FIRE", "fixes", "            module=node.module, names=node.names, level=node.level, lineno=safe_position_lineno", "            module=node.module, names=node.names, level=0, lineno=safe_position_lineno", "R18.1"),
     Variant("sorted-aliases-drop-level", "FIRE", "fixes",
             "                names=[ast.alias(name=name, asname=asname) for name, asname in expected_names],\n                level=node.level,", "                names=[ast.alias(name=name, asname=asname) for name, asname in expected_names],\n                level=0,", "R18.1"),
@@ -176,7 +253,7 @@ VARIANTS = [
 
 META = {
     "design_ref": "DESIGN.md section 3, C18",
-    "technique": "field-propagation dataflow (module/level of constructed ImportFrom nodes, grouping keys) + mention checks",
+    "technique": "field-propagation dataflow (module/level of constructed ImportFrom nodes, grouping keys) + mention checks + guard check of alias lookups by bound name",
     "level_text": ("Decides on the current source that a constructed from-import never takes its module from an existing "
                    "import node without taking that node's level, that dictionaries grouping imports by module also key on "
                    "the level, that the textual constructor keeps the dots, and that __future__ imports are never counted "
